@@ -48,6 +48,8 @@ class Session:
         self.cfg = dircfg[spec['dir']]
         self.history = list(spec['history']) + list(extra_history)
         self.dead = False
+        self._keep = {}      # the client's list objects, per selection
+        self._recycled = {}  # ... and per argument position
         SLm = repo.mod('src.single_layer')
         IPm = repo.mod('src.initial_potential')
         IM = repo.mod('src.initial_mesh')
@@ -403,6 +405,8 @@ class World:
         if kind == 'refine':
             s.replay(op['ops'])
             s.history.extend(op['ops'])
+            s._keep.clear()
+            s._recycled.clear()
             self.log.append(('refine', len(s.case.mesh.leaf_elements)))
             return
         if kind == 'slm':
@@ -503,9 +507,34 @@ class World:
             })
         self.check_files(s, opkey, R, site + '/' + path)
 
+    def client_list(self, s, op, side, lst):
+        """What clients do with their argument lists between calls: 'same'
+        passes the very list object of an earlier call with this selection
+        again; 'recycle' overwrites, in place, the list object last passed in
+        this argument position (same object, other content)."""
+        mode = op.get('client')
+        if lst is None or mode is None or op.get('as_tuple'):
+            return lst
+        import json
+        key = json.dumps(op[side], sort_keys=True)
+        if mode == 'same':
+            if key in s._keep and len(s._keep[key]) == len(lst) and all(
+                    a is b for a, b in zip(s._keep[key], lst)):
+                self.cov.inc('probe.same_list_object_again')
+                lst = s._keep[key]
+        else:
+            obj = s._recycled.get(side)
+            if obj is not None and obj is not lst:
+                obj[:] = lst
+                lst = obj
+                self.cov.inc('probe.list_object_recycled_with_other_content')
+        s._keep[key] = lst
+        s._recycled[side] = lst
+        return lst
+
     def op_slm(self, s, op):
-        test = s.select(op['test'])
-        trial = s.select(op['trial'])
+        test = self.client_list(s, op, 'test', s.select(op['test']))
+        trial = self.client_list(s, op, 'trial', s.select(op['trial']))
         if op.get('as_tuple'):
             # any sequence is an element list
             test = tuple(test) if test is not None else None
@@ -528,7 +557,7 @@ class World:
         if s.M0 is None:
             self.cov.inc('skipped.op_m0_without_domain')
             return
-        elems = s.select(op['sel'])
+        elems = self.client_list(s, op, 'sel', s.select(op['sel']))
         e_list = elems if elems is not None else list(
             s.case.mesh.leaf_elements)
         unit = {'UnitSquare': 1.0, 'PiSquare': np.pi, 'LShape': 1.0}[s.curve]
@@ -1015,6 +1044,13 @@ def gen_run(seed, params):
         if rng.random() < 0.08:
             base['as_tuple'] = True
         ops.append(dict(base, op='slm', test=test, trial=trial))
+    # what the client does with its list objects between calls (own stream:
+    # the runs without this feature stay what they were)
+    crng = stream(seed, 'workload-client')
+    if crng.random() < params.get('p_client', 0.3):
+        for op in ops:
+            if op['op'] in ('slm', 'm0v'):
+                op['client'] = 'same' if crng.random() < 0.6 else 'recycle'
     return {'dirs': dirs, 'ops': ops}
 
 
